@@ -174,4 +174,13 @@ def defaultMetric (isTable hasCdr3A hasCdr3B : Bool) : MetricId :=
     else if hasCdr3B then .betaCdr3
     else .levenshtein
   else .levenshtein
+
+/-- the class names used in the source, as the model's metric identifiers -/
+def metricOfName : String → Option MetricId
+  | "Levenshtein" => some .levenshtein
+  | "AlphaCdr3Levenshtein" => some .alphaCdr3
+  | "BetaCdr3Levenshtein" => some .betaCdr3
+  | "Cdr3Levenshtein" => some .cdr3
+  | _ => none
+
 end Prs
